@@ -497,7 +497,7 @@ Ltac destruct_scrut :=
   | |- context [match ?x with _ => _ end] =>
       lazymatch x with
       | context [match _ with _ => _ end] => fail
-      | _ => destruct x eqn:?; try discriminate
+      | _ => let E := fresh "E" in destruct x eqn:E; try discriminate E
       end
   end.
 
@@ -622,7 +622,7 @@ Proof.
       assert (Hr' : (length (snd (absorb LBR l r)) < fuel)%nat)
         by (eapply Nat.le_lt_trans; [apply absorb_length | simpl in Hl; lia]);
       remember (fst (absorb LBR l r)) as g eqn:Eg; remember (snd (absorb LBR l r)) as r' eqn:Er';
-      rt_unfold; use_inner INNER IL; rewrite <- Eg in E2; rewrite <- ?Er';
+      rt_unfold; use_inner INNER IL; rewrite <- Eg in E2; rewrite <- ?Er'; clear INNER OUTER H1 H2 H3 HR HI;
       match type of E2 with ?v = _ => subst v end;
       destruct (is_nil g) eqn:Hg;
       [ destruct g; [|discriminate]; cbn [str_eqb]; rt_unfold; reflexivity
